@@ -423,6 +423,15 @@ func parseString(p *peeker) (node, hcl.Diagnostics) {
             errEndPos := errPos
             errEndPos.Byte++
             errEndPos.Column++
+            if errEndPos.Byte > tok.Range.End.Byte {
+                // The decoder reports an error "after reading Offset bytes", so
+                // for a problem at the very end of the token (e.g. a string
+                // that is never closed) the position computed above lies past
+                // the token, and for the last token past the end of the file.
+                // Point at the end of the token instead.
+                errPos = tok.Range.End
+                errEndPos = tok.Range.End
+            }
 
             errRange = hcl.Range{
                 Filename: tok.Range.Filename,
